@@ -10,6 +10,9 @@ fn main() {
         .and_then(|i| a.extra.get(i + 1).cloned())
         .unwrap_or_else(|| "mix".to_string());
     drive(move |_i, r| {
+        if gen == "c07" {
+            return gens::gen_c07(r);
+        }
         let (class, sim) = match gen.as_str() {
             "mix" => gens::gen_mix(r),
             "c09" => gens::gen_c09(r),
